@@ -24,6 +24,8 @@ def family_texts(cls, t):
     fams.append(("components", [t, t + ".1", t + ".1.2", t + ".1.2.3", t + ".0", t + ".0.0", t + ".1.2.3.4"]))
     sfx = list(gens.SUFFIX_DICT.get(cls.__name__, []))
     fams.append(("suffixes", [t] + [t + x for x in sfx]))
+    seps = [i for i, c in enumerate(t) if c in ".-_+~:"][:4]
+    fams.append(("separators", list(dict.fromkeys([t] + [t[:i] + c + t[i + 1:] for i in seps for c in ".-_+~:"]))))
     fams.append(("case", list(dict.fromkeys([t, t.upper(), t.lower(), t.capitalize(), t.swapcase()]))))
     fams.append(("decorations", [t, t + "-", t + "-0", "0:" + t, "00:" + t, t + "+", t + ".", t + "~", t + "-0-0", t + "-1-", "1:" + t, ":" + t, t + "_", "+" + t]))
     return fams
